@@ -38,6 +38,8 @@ fn faults() -> Vec<(&'static str, E)> {
         ("print/partial", print("a~b~c", vec![int(1)])),
         ("div/zero", binop("/", int(1), int(0))), ("mod/zero", binop("%", int(1), int(0))), ("div/min-1", binop("/", int(i32::MIN), int(-1))),
         ("div/zero-method", mcall(int(5), "/", vec![int(0)])),
+        ("unknown-method/object==", binop("==", go(), int(1))), ("unknown-method/object!=null", binop("!=", go(), E::Null)),
+        ("unknown-method/object-eq-word", mcall(go(), "eq", vec![E::Null])), ("unknown-method/inherited==", binop("==", var("gc"), var("gc"))),
     ]
 }
 
@@ -289,6 +291,15 @@ fn structures(ctx: &mut Ctx) {
                 else { judge_no_crash(ctx, &format!("{}-cycle via {} -> {}", k, link, reach), &s, &res, "start\nlinked\n", must_succeed.as_deref()) }
             }
         }
+    }
+    ctx.stage("cyclic print on a large heap");
+    for n in (if ctx.quick() { vec![2_000usize, 60_000] } else { vec![100, 2_000, 20_000, 60_000, 300_000] }) {
+        if ctx.take().is_none() { continue }
+        let s = format!("print(\"start\\n\");\nlet i = 0; while i < {} do begin object begin let a = i end; i <- i + 1 end;\nlet p = object begin let next = null end; let q = object begin let next = p end; p.next <- q;\nprint(\"linked\\n\");\nprint(\"~\\n\", p);\nprint(\"after\\n\")", n);
+        ctx.describe(&s);
+        let res = run_text(ctx, &s, 60);
+        ctx.count("programs", 1); ctx.nontrivial(s.as_bytes());
+        judge_no_crash(ctx, &format!("2-cycle printed after {} unrelated allocations", n), &s, &res, "start\nlinked\n", None);
     }
     ctx.stage("long acyclic chains reaching print and dispatch");
     let lens: Vec<usize> = if ctx.quick() { vec![10, 1000] } else { vec![10, 100, 1000, 3000] };
